@@ -4,6 +4,9 @@
     routine.validate  {"dir":"u"|"m", "ty":Ty, "tree":Node, "keys"?:[Ty]}  → {"adequate":bool, "path":str|null}
     routine.graph     {"dir":…, "graph":[[Ty, Node], …]}                    → {"adequate":bool, "entry":int|null, "path":…}
     routine.run       {"dir":…, "tree":Node, "val":Val}                     → {"ok":Val} | {"err":class}
+    routine.compile   {"dir":…, "ty":Ty}   → {"tree":Node+, "compilable":bool, "adequate":bool}
+                      the MODEL compiler's tree (Model/Compile.lean) in the extractor's node format, every node
+                      also carrying "ann": the erased annotation it serves
 
   `Node` is what harness/routines_extract.py writes for a real routine object: its class name and public
   attributes, nothing interpreted: {"c":class, "t":Ty|null, "tr":repr(t), "o":origin, "values":…,
@@ -16,6 +19,7 @@
 -/
 import TypelibModel.Drv.Core
 import TypelibModel.Model.Routine
+import TypelibModel.Model.Compile
 open Lean
 namespace Typelib.Drv
 namespace RoutineOps
@@ -165,6 +169,75 @@ partial def firstFail (d : Dir) (K : Ty → Bool) (env : Env) (t : Ty) (r : Rout
     | some p => some p
     | none => here
 
+def scalarName : Scalar → String
+  | .int => "int" | .bool => "bool" | .float => "float" | .str => "str" | .decimal => "decimal"
+  | .fraction => "fraction" | .uuid => "uuid" | .path => "path" | .pattern => "pattern" | .date => "date"
+  | .datetime => "datetime" | .time => "time" | .timedelta => "timedelta" | .bytes => "bytes"
+
+def collName : Coll → String
+  | .list => "list" | .set => "set" | .frozenset => "frozenset" | .deque => "deque" | .vartuple => "vartuple"
+
+def wrapperName : Wrapper → String
+  | .newtype => "newtype" | .alias => "alias" | .final => "final" | .classvar => "classvar"
+
+/-- Inverse of `tyOfJson` (Drv/Codec.lean). -/
+partial def tyToJson : Ty → Json
+  | .scalar s => .arr #[.str (scalarName s)]
+  | .none => .arr #[.str "none"]
+  | .any => .arr #[.str "any"]
+  | .enum c => .arr #[.str "enum", jN c]
+  | .cls c => .arr #[.str "cls", jN c]
+  | .literal vs => .arr #[.str "lit", .arr (vs.map valToJson).toArray]
+  | .coll k e => .arr #[.str "coll", .str (collName k), tyToJson e]
+  | .tuple es => .arr #[.str "tuple", .arr (es.map tyToJson).toArray]
+  | .dict k v => .arr #[.str "dict", tyToJson k, tyToJson v]
+  | .union ms => .arr #[.str "union", .arr (ms.map tyToJson).toArray]
+  | .wrap w t => .arr #[.str "wrap", .str (wrapperName w), tyToJson t]
+
+def originOfColl : Coll → String
+  | .list => "list" | .set => "set" | .frozenset => "frozenset" | .deque => "deque" | .vartuple => "tuple"
+
+/-- A model tree in the extractor's node format (class names from `routineClass`), walked together with the
+    erased annotation it was compiled for; every node also says which annotation it serves ("ann"). -/
+partial def nodeJson (d : Dir) (env : Env) (t : Ty) (r : Routine) : Json :=
+  let base : List (String × Json) := [("c", .str (routineClass d r)), ("ann", tyToJson t)]
+  let rec zipL (ts : List Ty) (rs : List Routine) : List Json :=
+    match ts, rs with
+    | t :: ts', r :: rs' => nodeJson d env t r :: zipL ts' rs'
+    | [], r :: rs' => nodeJson d env .any r :: zipL [] rs'
+    | _, [] => []
+  let rec zipF (ts : List (Str × Ty)) (rs : List (Str × Routine)) : List Json :=
+    match ts, rs with
+    | (_, t) :: ts', (b, r) :: rs' => Json.arr #[.str (U b), nodeJson d env t r] :: zipF ts' rs'
+    | [], (b, r) :: rs' => Json.arr #[.str (U b), nodeJson d env .any r] :: zipF [] rs'
+    | _, [] => []
+  match r with
+  | .leaf s => Json.mkObj (base ++ [("t", tyToJson (.scalar s))])
+  | .none => Json.mkObj (base ++ [("t", tyToJson .none)])
+  | .noop => Json.mkObj (base ++ [("t", tyToJson .any)])
+  | .literal vs => Json.mkObj (base ++ [("values", .arr (vs.map valToJson).toArray)])
+  | .enumCast c => Json.mkObj (base ++ [("t", tyToJson (.enum c))])
+  | .union nb rs =>
+    let ms := match t with | .union ms => unionMembers d ms | _ => []
+    let nbJ : List (String × Json) := match d with | .u => [] | .m => [("nullable", .bool nb)]
+    Json.mkObj (base ++ [("rs", .arr (zipL ms rs).toArray)] ++ nbJ)
+  | .coll k r' =>
+    let e := match t with | .coll _ e => e | _ => .any
+    Json.mkObj (base ++ [("o", .str (originOfColl k)), ("values", nodeJson d env e r')])
+  | .tuple rs =>
+    let es := match t with | .tuple es => es | _ => []
+    Json.mkObj (base ++ [("o", .str "tuple"), ("rs", .arr (zipL es rs).toArray)])
+  | .dict rk rv =>
+    let (k, v) := match t with | .dict k v => (k, v) | _ => (Ty.any, Ty.any)
+    Json.mkObj (base ++ [("o", .str "dict"), ("keys", nodeJson d env k rk), ("values", nodeJson d env v rv)])
+  | .struct c fs req =>
+    let reqJ : List (String × Json) := match d with
+      | .u => [("required", .arr (req.map (fun s => Json.str (U s))).toArray)]
+      | .m => []
+    Json.mkObj (base ++ [("t", tyToJson (.cls c)), ("fields", .arr (zipF (fieldsOf env c) fs).toArray)] ++ reqJ)
+  | .delayed t' => Json.mkObj (base ++ [("t", tyToJson (erase t'))])
+  | .unknown tag => Json.mkObj (base ++ [("tr", .str (U tag))])
+
 def optStr : Option String → Json
   | some s => .str s
   | none => .null
@@ -211,6 +284,14 @@ def handleRoutine (st : St) (op : String) (j : Json) : Option (Except String (St
     pure (st, Json.mkObj [("adequate", .bool ok),
       ("entry", match bad with | some (i, _) => jN i | none => .null),
       ("path", optStr (bad.map Prod.snd))])
+  | "routine.compile" => some do
+    let d ← dirOfJson j
+    let t ← tyOfJson (← j.getObjVal? "ty")
+    let env := eraseEnv st.env
+    let r := compile d st.env t
+    pure (st, Json.mkObj [("tree", nodeJson d env (erase t) r),
+      ("compilable", .bool (compilableEnv st.env && compilable st.env t)),
+      ("adequate", .bool (adequate d anyTarget env (erase t) r))])
   | "routine.run" => some do
     let d ← dirOfJson j
     let r ← routineOfJson d (← j.getObjVal? "tree")
